@@ -320,9 +320,187 @@ def p_wif_rt(secret, mainnet, compressed):
     return None
 
 
+# ---------------------------------------------------------------- histories: one object / one module, many calls
+# Every step of a session is compared with the stateless references above, so a result that depends on an EARLIER
+# call (a memo on a script or key object, a module-level cache keyed too coarsely, a value computed once in a
+# constructor and never refreshed) shows up as a failing step. Sessions are built from "families" of nearly equal
+# arguments (same payload / other network, same program / other version, same hash / other template, ...).
+
+SPK_CLS = [script.P2PKHScriptPubKey, script.P2SHScriptPubKey, script.P2WPKHScriptPubKey,
+           script.P2WSHScriptPubKey, script.P2TRScriptPubKey]
+SPK_HPOS = [2, 1, 1, 1, 1]
+B58PFX = [(b"\x00", b"\x6f"), (b"\x05", b"\xc4")]
+
+
+def spk_commands(t, h):
+    return [[0x76, 0xA9, h, 0x88, 0xAC], [0xA9, h, 0x87], [0, h], [0, h], [0x51, h]][t]
+
+
+def ref_address(t, h, net):
+    """reference address of template t with hash h on NETS[net]; None when the library must refuse"""
+    if t in (0, 1):
+        raw = B58PFX[t][0 if net == 0 else 1] + h
+        return ref_b58enc(raw + h256(raw)[:4])
+    if net not in HRP:
+        return None
+    return ref_segwit(HRP[net], 1 if t == 4 else 0, h)
+
+
+def _try(f, *a, **kw):
+    try:
+        return f(*a, **kw)
+    except Exception:
+        return ERR
+
+
+def _sub(s, seg, pos, k):
+    """s with one character replaced by the k-th other character of its alphabet; segwit strings are changed in
+    the data part only, base58 strings anywhere but at the first character (which selects the address type)"""
+    alpha = B32 if seg else B58
+    start = (5 if s.startswith("bcrt") else s.index("1") + 1) if seg else 1
+    pos = start + pos % (len(s) - start)
+    others = [c for c in alpha if c != s[pos]]
+    return s[:pos] + others[k % len(others)] + s[pos + 1:]
+
+
+def _step(op, st):
+    """one step of a session; st holds the long-lived objects. Returns (got, want)."""
+    k = op[0]
+    a = op[1:]
+    if k == b"b58c":
+        return _try(helper.encode_base58_checksum, a[0]), ref_b58enc(a[0] + h256(a[0])[:4])
+    if k == b"b58e":
+        return _try(helper.encode_base58, a[0]), (ref_b58enc(a[0]) if a[0] else ERR)
+    if k in (b"b58r", b"b58d"):
+        s = T(a[0])
+        raw = ref_b58dec(s)
+        ok = raw is not None and len(raw) >= 4 and h256(raw[:-4])[:4] == raw[-4:]
+        if k == b"b58r":
+            return _try(helper.raw_decode_base58, s), (raw[:-4] if ok else ERR)
+        return _try(helper.decode_base58, s), (raw[:-4][1:] if ok else ERR)
+    if k == b"segenc":
+        ver, prog, net = a
+        want = ref_segwit(HRP[net], ver, prog) if net in HRP else ERR
+        return _try(bech32.encode_bech32_checksum, spk_bytes(ver, prog), NETS[net]), want
+    if k == b"segdec":
+        # variant 0: valid; 1: the other checksum constant; 2: one substitution; 3: two substitutions
+        ver, prog, net, variant, p1, p2 = a
+        hrp = HRP[net]
+        s = ref_segwit(hrp, ver, prog)
+        if variant == 1:
+            s = ref_segwit(hrp, ver, prog, const=(0x2bc830a3 if ver == 0 else 1))
+        elif variant >= 2:
+            s = _sub(s, True, p1, p2)
+            if variant == 3:
+                s2 = _sub(s, True, p2, p1)
+                s = s2 if sum(x != y for x, y in zip(s2, ref_segwit(hrp, ver, prog))) == 2 else s
+        want = [{"bc": "mainnet", "tb": "testnet", "bcrt": "regtest"}[hrp], ver, prog] if variant == 0 else ERR
+        return _try(bech32.decode_bech32, s), want
+    if k in (b"a2s", b"toaddr"):
+        t, h, net, corrupt, p1, p2 = a
+        s = ref_address(t, h, net)
+        if corrupt:
+            s = _sub(s, t >= 2, p1, p2)
+        if k == b"a2s":
+            r = _try(script.address_to_script_pubkey, s)
+            got = r if r is ERR else [SPK_CLS.index(type(r)) if type(r) in SPK_CLS else -1, r.commands]
+            return got, (ERR if corrupt else [t, spk_commands(t, h)])
+        r = _try(tx.TxOut.to_address, s, p1)
+        got = r if r is ERR else [SPK_CLS.index(type(r.script_pubkey)) if type(r.script_pubkey) in SPK_CLS else -1,
+                                  r.script_pubkey.commands, r.amount]
+        return got, (ERR if corrupt else [t, spk_commands(t, h), p1])
+    if k == b"cks":
+        m, hrp, data = a
+        pm = ref_polymod(ref_hrp(T(hrp)) + data + [0] * 6) ^ (0x2bc830a3 if m else 1)
+        f = bech32.bech32m_create_checksum if m else bech32.bech32_create_checksum
+        return _try(f, T(hrp), list(data)), [(pm >> 5 * (5 - i)) & 31 for i in range(6)]
+    if k == b"ver":
+        m, hrp, data = a
+        f = bech32.bech32m_verify_checksum if m else bech32.bech32_verify_checksum
+        return _try(f, T(hrp), list(data)), ref_polymod(ref_hrp(T(hrp)) + data) == (0x2bc830a3 if m else 1)
+    if k == b"poly":
+        return _try(bech32.bech32_polymod, list(a[0])), ref_polymod(a[0])
+    if k == b"hrp":
+        return _try(bech32.bech32_hrp_expand, T(a[0])), ref_hrp(T(a[0]))
+    if k == b"g32":
+        return _try(bech32.group_32, a[0]), (ref_conv(a[0], 8, 5, True) if a[0] else [0])
+    # ---- long-lived scriptPubKey objects
+    if k == b"spk":
+        slot, t, h = a
+        st["spk"][slot] = (t, SPK_CLS[t](h))
+        st["h"][slot] = h
+        return None, None
+    if k in (b"addr", b"ser", b"edit", b"editc"):
+        slot = a[0]
+        t, obj = st["spk"][slot]
+        if k == b"addr":
+            want = ref_address(t, st["h"][slot], a[1])
+            return _try(obj.address, NETS[a[1]]), (ERR if want is None else want)
+        if k == b"ser":
+            h = st["h"][slot]
+            return _try(obj.raw_serialize), bytes(x for c in spk_commands(t, h)
+                                                   for x in ([c] if isinstance(c, int) else bytes([len(c)]) + c))
+        if k == b"edit":                       # the hash element is overwritten in place
+            obj.commands[SPK_HPOS[t]] = a[1]
+        else:                                  # the whole public field is replaced
+            obj.commands = spk_commands(t, a[1])
+        st["h"][slot] = a[1]
+        return None, None
+    # ---- long-lived private keys
+    if k == b"key":
+        slot, secret, net, comp = a
+        st["key"][slot] = pecc.PrivateKey(secret, network=NETS[net], compressed=bool(comp))
+        return None, None
+    if k in (b"wif", b"wifd", b"knet", b"ksec", b"kcomp"):
+        key = st["key"][a[0]]
+        if k == b"knet":
+            key.network = NETS[a[1]]
+        elif k == b"ksec":
+            key.secret = a[1]
+        elif k == b"kcomp":
+            key.compressed = bool(a[1])
+        else:
+            comp = True if k == b"wifd" else bool(a[1])        # wifd: the default argument
+            raw = (b"\x80" if key.network == "mainnet" else b"\xef") + key.secret.to_bytes(32, "big") + \
+                (b"\x01" if comp else b"")
+            got = _try(key.wif) if k == b"wifd" else _try(key.wif, compressed=comp)
+            return got, ref_b58enc(raw + h256(raw)[:4])
+        return None, None
+    if k == b"parse":
+        secret, mainnet, comp = a
+        raw = (b"\x80" if mainnet else b"\xef") + secret.to_bytes(32, "big") + (b"\x01" if comp else b"")
+        r = _try(pecc.PrivateKey.parse, ref_b58enc(raw + h256(raw)[:4]))
+        got = r if r is ERR else [r.secret, r.network, bool(r.compressed),
+                                  _try(r.wif, compressed=bool(comp)), _try(r.wif, compressed=not comp)]
+        raw2 = raw[:33] + (b"" if comp else b"\x01")
+        return got, [secret, "mainnet" if mainnet else "testnet", bool(comp),
+                     ref_b58enc(raw + h256(raw)[:4]), ref_b58enc(raw2 + h256(raw2)[:4])]
+    raise ValueError("unknown step %r" % (k,))
+
+
+def _show(v):
+    return "an exception" if v is ERR else repr(v)[:120]
+
+
+def p_history(ops):
+    """a sequence of calls on the same module functions / the same script and key objects: every result equals
+    the stateless reference for the CURRENT arguments and fields"""
+    from vp.sexp import canon
+    st = {"spk": {}, "key": {}, "h": {}}
+    for i, op in enumerate(ops):
+        got, want = _step(op, st)
+        if got is ERR and want is ERR:
+            continue
+        if got is ERR or want is ERR or canon(got) != canon(want):
+            return (f"step {i} {op[0].decode()}: got {_show(got)}, the reference for the current arguments/fields gives "
+                    f"{_show(want)} — after {i} earlier call(s)/edit(s) in this session")
+    return None
+
+
 PROPS = {"b58_rt": p_b58_rt, "b58_accept_iff": p_b58_accept_iff, "segwit_rt": p_segwit_rt,
          "segwit_sub1": p_segwit_sub1, "segwit_sub2": p_segwit_sub2, "group32": p_group32,
-         "spk_addr": p_spk_addr, "to_address": p_to_address, "addr_distinct": p_addr_distinct, "wif_rt": p_wif_rt}
+         "spk_addr": p_spk_addr, "to_address": p_to_address, "addr_distinct": p_addr_distinct, "wif_rt": p_wif_rt,
+         "history": p_history}
 
 
 # ---------------------------------------------------------------- generators
@@ -340,6 +518,180 @@ def payloads(ctx, n):
         out.append(b"\x00" + ctx.rbytes(n - 1))
         out.append(ctx.rbytes(n - 1) + b"\x00")
     return out
+
+
+def _mix(r, ops, repeat=0.35):
+    """order-preserving merge is not wanted here: shuffle the queries, then repeat some of them later on"""
+    ops = list(ops)
+    r.shuffle(ops)
+    for op in list(ops):
+        if r.random() < repeat:
+            ops.insert(r.randrange(len(ops) + 1), op)
+    return ops
+
+
+def fam_b58(ctx):
+    """base58 calls on payloads that differ only in leading zeros / length / one byte, and on their strings"""
+    r = ctx.rng
+    n = r.choice([1, 4, 20, 21, 33, 34, r.randrange(1, 83)])
+    b = ctx.rbytes(n)
+    fam = [b, b"\x00" + b, b"\x00\x00" + b, b[:-1], b + b"\x00", bytes(n), b[:-1] + bytes([b[-1] ^ 1]), b[1:], b""]
+    ops = []
+    for x in fam:
+        ops.append([b"b58c", x])
+        ops.append([b"b58e", x])
+        good = ref_b58enc(x + h256(x)[:4])
+        ops.append([b"b58r", good.encode()])
+        ops.append([b"b58d", good.encode()])
+        bad = _sub(good, False, r.randrange(100), r.randrange(57)) if len(good) > 1 else good + "2"
+        ops.append([r.choice([b"b58r", b"b58d"]), bad.encode()])
+        ops.append([b"b58r", ref_b58enc(x).encode()])          # no checksum appended
+    return _mix(r, ops)
+
+
+def fam_seg(ctx):
+    """the same witness program under several versions and networks, encoded and decoded in every order"""
+    r = ctx.rng
+    progs = [ctx.rbytes(r.choice([2, 20, 32, 40, r.randrange(2, 41)]))]
+    progs.append(progs[0][:-1] + bytes([progs[0][-1] ^ 0x80]))
+    ops = []
+    for prog in progs:
+        for ver in r.sample(range(17), 3) + [0, 1]:
+            for net in range(4):
+                ops.append([b"segenc", ver, prog, net])
+                ops.append([b"segdec", ver, prog, net, r.choice([0, 0, 0, 1, 2, 3]), r.randrange(100), r.randrange(31)])
+            ops.append([b"segenc", ver, prog, 4])
+            ops.append([b"segdec", ver, prog, r.randrange(4), 1, 0, 0])
+    return _mix(r, r.sample(ops, min(len(ops), 60)))
+
+
+def fam_spk(ctx):
+    """long-lived scriptPubKey objects sharing one hash: address() for every network in every order, with the
+    hash edited in place (element overwritten / commands replaced) between the calls"""
+    r = ctx.rng
+    h32 = ctx.rbytes(32)
+    slots = r.sample(range(5), r.choice([2, 3, 5]))
+    ops = [[b"spk", i, t, h32[:20] if t < 3 else h32] for i, t in enumerate(slots)]
+    for _ in range(r.randrange(25, 45)):
+        i = r.randrange(len(slots))
+        t = slots[i]
+        k = r.random()
+        if k < 0.55:
+            ops.append([b"addr", i, r.choice([0, 0, 1, 1, 2, 3, 4])])
+        elif k < 0.65:
+            ops.append([b"ser", i])
+        elif k < 0.85:
+            hn = r.choice([h32, ctx.rbytes(32), bytes(32), h32[:-1] + bytes([h32[-1] ^ 1])])
+            ops.append([r.choice([b"edit", b"editc"]), i, hn[:20] if t < 3 else hn])
+        else:
+            hh = h32[:20] if t < 3 else h32
+            net = r.randrange(4)
+            ops.append([r.choice([b"a2s", b"toaddr"]), t, hh, net, int(r.random() < 0.3), r.randrange(100), r.randrange(57)])
+        if r.random() < 0.3 and ops[-1][0] == b"addr":
+            ops.append(list(ops[-1]))                                  # the same call twice in a row
+    # close with every network on every object: whatever was remembered must not leak into these
+    for i in range(len(slots)):
+        for net in r.sample(range(4), 4):
+            ops.append([b"addr", i, net])
+    return ops
+
+
+def fam_addr(ctx):
+    """address_to_script_pubkey / TxOut.to_address on the addresses of ONE hash under all templates and networks"""
+    r = ctx.rng
+    h32 = ctx.rbytes(32)
+    ops = []
+    for t in range(5):
+        for net in range(4):
+            hh = h32[:20] if t < 3 else h32
+            for k in (b"a2s", b"toaddr"):
+                ops.append([k, t, hh, net, 0, r.randrange(1, 2 ** 40), 0])
+                if r.random() < 0.4:
+                    ops.append([k, t, hh, net, 1, r.randrange(100), r.randrange(57)])
+    return _mix(r, r.sample(ops, 40), 0.25)
+
+
+def fam_key(ctx):
+    """one PrivateKey object: wif() for both compression flags and after network / secret edits, in every order"""
+    r = ctx.rng
+    secs = [r.randrange(1, N), r.choice([1, 255, 2 ** 248, N - 1, r.getrandbits(200) + 1])]
+    ops = [[b"key", 0, secs[0], r.randrange(4), r.randrange(2)], [b"key", 1, secs[1], r.randrange(4), r.randrange(2)]]
+    for _ in range(r.randrange(20, 35)):
+        i = r.randrange(2)
+        k = r.random()
+        if k < 0.5:
+            ops.append([b"wif", i, r.randrange(2)])
+        elif k < 0.6:
+            ops.append([b"wifd", i])
+        elif k < 0.8:
+            ops.append([b"knet", i, r.choice([0, 1, 2, 3, 4])])
+        elif k < 0.87:
+            ops.append([b"kcomp", i, r.randrange(2)])
+        elif k < 0.94:
+            ops.append([b"ksec", i, r.choice(secs + [r.randrange(1, N)])])
+        else:
+            ops.append([b"parse", r.choice(secs), r.randrange(2), r.randrange(2)])
+    for i in range(2):
+        for c in r.sample([0, 1], 2):
+            ops.append([b"wif", i, c])
+    return ops
+
+
+def fam_prim(ctx):
+    """checksum primitives on the same data under both constants and several prefixes"""
+    r = ctx.rng
+    data = [r.randrange(32) for _ in range(r.randrange(1, 60))]
+    d2 = list(data)
+    d2[r.randrange(len(d2))] ^= r.randrange(1, 32)
+    ops = []
+    for hrp in (b"bc", b"tb", b"bcrt", b"cb"):
+        ops.append([b"hrp", hrp])
+        for m in (0, 1):
+            for d in (data, d2, data[::-1], data[:-1]):
+                ops.append([b"cks", m, hrp, d])
+                pm = ref_polymod(ref_hrp(T(hrp)) + d + [0] * 6) ^ (0x2bc830a3 if m else 1)
+                full = d + [(pm >> 5 * (5 - i)) & 31 for i in range(6)]
+                ops.append([b"ver", m, hrp, full])
+                ops.append([b"ver", 1 - m, hrp, full])
+                ops.append([b"ver", m, r.choice([b"bc", b"tb"]), full])
+                ops.append([b"poly", full])
+    b = ctx.rbytes(r.randrange(1, 45))
+    for x in (b, b[:-1], b + b"\x00", bytes(len(b)), b""):
+        ops.append([b"g32", x])
+    return _mix(r, r.sample(ops, 50), 0.25)
+
+
+FAMILIES = [("b58", fam_b58), ("segwit", fam_seg), ("script-objects", fam_spk), ("address-parsers", fam_addr),
+            ("private-key-objects", fam_key), ("checksum-primitives", fam_prim)]
+
+
+def histories(ctx):
+    r = ctx.rng
+    for i in range(ctx.n(8, 120)):
+        for name, f in FAMILIES:
+            ctx.label("history/" + name)
+            yield ("prop", "history", [f(ctx)])
+        # everything interleaved in one session: objects stay alive while the module functions are used
+        ctx.label("history/interleaved")
+        yield ("prop", "history", [_interleave(r, [f(ctx) for _, f in FAMILIES])])
+
+
+def _interleave(r, parts):
+    """merge the sessions keeping each one's own order (object creation stays before use); slots are made disjoint"""
+    for pi, p in enumerate(parts):
+        for op in p:
+            if op[0] in (b"spk", b"addr", b"ser", b"edit", b"editc", b"key", b"wif", b"wifd", b"knet", b"ksec", b"kcomp"):
+                op[1] += 10 * pi
+    out = []
+    parts = [list(p) for p in parts if p]
+    while parts:
+        p = r.choice(parts)
+        k = r.randrange(1, 4)
+        out.extend(p[:k])
+        del p[:k]
+        parts = [q for q in parts if q]
+    return out
+
 
 
 def generate(ctx):
@@ -562,3 +914,5 @@ def generate(ctx):
         raw = (bytes([pre]) + body) if r.random() < 0.95 else b""
         ctx.label("wif/odd-payload")
         yield ("corr", "wif_parse", [ref_b58enc(raw + h256(raw)[:4]).encode()])
+    # ---------------- histories (state kept across calls on one object / in the module)
+    yield from histories(ctx)
